@@ -107,6 +107,50 @@ def run(rep, tier):
             if not diff <= 1e-10 * res[(4, 0)][2]:
                 rep.violation("replay:threadReductionFactor", "threadReductionFactor 0.5 changes the solution by %.3e" % diff, replay={"shape": sh[0]})
     rep.sample({"shape": cases[0][0][0], "teams": teams, "args": oc.case_args(cases[0][0], cases[0][1], cases[0][2], cases[0][3], 0, 2)[:20]})
+    # 2b. every operator alone (finest-level residual, smoothers, coarsest direct solve, all transfers between level 0 and 1, extrapolated
+    #     residual, rhs build) below AND above the 10 000-node threshold at which the transfers and vector kernels become parallel
+    big = [("s129x96", 129, 96, 5)] + ([("s161x128", 161, 128, 6)] if thorough else [])
+    opcases = [(big[0], 1, 1), (big[0], 0, 3), (SHAPES[3], 0, 1)] + ([(b, m, e) for b in big[1:] for (m, e) in ((1, 3), (0, 1))] + [(SHAPES[5], 1, 2)] if thorough else [])
+    opteams = [1, 2, 3, 8, 32] if thorough else [1, 2, 5]
+    nopc = 0
+    for (sh, m, e) in opcases:
+        args = oc.case_args(sh, m, e, 0, 0, 2)
+        runs = {}
+        for T in opteams:
+            for rerun in ((0, 1) if T == opteams[1] else (0,)):
+                out = os.path.join(tmp, "ops_%s_%d_%d_%d_%d.bin" % (sh[0], m, e, T, rerun))
+                a = args[:]
+                a[a.index("--maxOpenMPThreads") + 1] = str(T)
+                rc, recs, o = vlib.run_driver(exe, ["operators", out] + a, timeout=900, env={"OMP_NUM_THREADS": str(T), "OMP_DYNAMIC": "false"})
+                if rc != 0 or not recs:
+                    rep.violation("operators:crash", "operator run failed (T=%d, shape %s): %s" % (T, sh[0], o[-300:]), replay={"shape": sh[0], "T": T})
+                    continue
+                runs[(T, rerun)] = (recs[0]["ops"], out)
+                rep.case(key="ops %s m%d e%d T%d run%d" % (sh[0], m, e, T, rerun), nontrivial=T > 1)
+        par = [T for T in opteams if T >= 2 and (T, 0) in runs]
+        if not par or (1, 0) not in runs:
+            continue
+        ref_ops, ref_file = runs[(par[0], 0)]
+        seq = read_vec(runs[(1, 0)][1])
+        refv = read_vec(ref_file)
+        off = 0
+        for k, opr in enumerate(ref_ops):
+            name, n = opr["op"], opr["n"]
+            nopc += 1
+            for key, (ops_k, _f) in runs.items():
+                if key[0] >= 2 and ops_k[k]["hash"] != opr["hash"]:
+                    kind = "rerun" if key[0] == par[0] else "teamsize"
+                    rep.violation("operators:%s:%s" % (kind, name), "%s: output with %d threads%s differs bitwise from the output with %d threads (shape %s, %d nodes, method %d, ext %d)"
+                                  % (name, key[0], " (second run)" if key[1] else "", par[0], sh[0], sh[1] * sh[2], m, e), replay={"shape": sh[0], "op": name, "T": key[0]})
+                    break
+            a, b = seq[off:off + n], refv[off:off + n]
+            scale = max([abs(x) for x in a if x == x] + [1e-300])
+            bad = [i for i in range(n) if not (abs(a[i] - b[i]) <= 1e-10 * scale)]
+            if bad:
+                rep.violation("operators:sequential-vs-parallel:%s" % name, "%s: 1 thread vs %d threads differ in %d of %d entries (first at %d: %r vs %r; shape %s, %d nodes, method %d, ext %d)"
+                              % (name, par[0], len(bad), n, bad[0], a[bad[0]], b[bad[0]], sh[0], sh[1] * sh[2], m, e), replay={"shape": sh[0], "op": name})
+            off += n
+    rep.cov["operator_outputs_compared"] = nopc
     # 3. vector kernels
     for T in ([1, 2, 5, 16, 32] if thorough else [1, 4]):
         rc, recs, o = vlib.run_driver(exe, ["kernels", vlib.seed(), T], timeout=600, env={"OMP_NUM_THREADS": str(T)})
